@@ -246,6 +246,8 @@ def jobs(prop, tier, only_fn=None):
     for (fmt, (ename, entry, stream)) in plan:
         if only_fn and ename != only_fn:
             continue
+        if ename == "vprintf_s" and prop != "C09":
+            continue  # vprintf_s hands the format to libc's vprintf: its text is libc's, not the engine's (only the %n rejection is its own)
         if stream and prop not in ("C09", "C11", "C12"):
             continue
         path, has_n, h = harness_file(fmt, entry, stream)
